@@ -1,7 +1,7 @@
 """T1, second part: a small Python -> Lean 4 translator for the loop-and-arithmetic helpers of the library.
 
 The functions listed in FUNCS are translated statement by statement from the AST of /repo's *current* working tree into
-`lean/Paho/Gen/Fn.lean` (regenerated on every run).  `PahoProofs/Properties/FnEquiv.lean` proves each generated function
+`lean/Paho/Gen/Fn*.lean` (one file per consumer, regenerated on every run).  `PahoProofs/Properties/Fn*.lean` prove each generated function
 equal, for all arguments, to the hand-written model function the property theorems are about - so a change to the body of
 one of these functions changes the generated definition and the equivalence proof no longer closes (or the translator
 reports a construct outside its subset, which is reported as a missing anchor).
